@@ -15,7 +15,7 @@ fn jcomp(evs: &[CompileEvent]) -> Value {
         evs.iter()
             .map(|e| {
                 let trans: Vec<Value> = e.node.trans.iter().map(|t| json!([t.0, jn(t.1 as usize), jn(t.2)])).collect();
-                json!({"final": e.node.is_final, "fout": jn(e.node.final_output as usize), "trans": trans, "kind": e.kind, "addr": jn(e.addr)})
+                json!({"final": e.node.is_final, "fout": jn(e.node.final_output as usize), "trans": trans, "kind": e.kind, "addr": jn(e.addr), "evicted": e.evicted})
             })
             .collect(),
     )
@@ -26,7 +26,8 @@ pub fn stepped_build(log: &mut Log, calls: &[Kv], set: bool, geo: Option<(usize,
     verif::set_geometry(geo);
     verif::start_tap();
     let mut b = Builder::memory();
-    log.ev(json!({"ev": "LNew", "set": set, "geo": format!("{:?}", geo)}));
+    let (rows, cols) = verif::last_geometry();
+    log.ev(json!({"ev": "LNew", "set": set, "geo": format!("{:?}", geo), "rows": jn(rows), "cols": jn(cols)}));
     let mut items: Vec<Kv> = vec![];
     for (k, v) in calls {
         let v = if set { 0 } else { *v };
@@ -96,7 +97,7 @@ fn with_rejects(r: &mut StdRng, items: &[Kv], p: u32) -> Vec<Kv> {
 pub fn step(log: &mut Log, seed: u64, tier: &str, set: bool) {
     let thorough = tier == "thorough";
     let mut r = rng(seed, 121);
-    let geos: &[Option<(usize, usize)>] = &[None, Some((0, 0)), Some((1, 1)), Some((1, 2)), Some((2, 2)), Some((3, 1)), Some((64, 2))];
+    let geos: &[Option<(usize, usize)>] = &[None, Some((0, 0)), Some((1, 1)), Some((1, 2)), Some((2, 2)), Some((3, 1)), Some((64, 2)), Some((1, 3)), Some((1, 5))];
     // every subset of a two-level universe, every value mode in turn
     let mut universe: Vec<Vec<u8>> = vec![vec![]];
     for a in &[b'a', 0xFFu8] {
